@@ -58,8 +58,9 @@ def effective(cfg):
     rc = cfg.get("reconf")
     if not rc:
         return cfg["prio"], cfg["seq"]
-    prio = [rc["prio"][k] if rc["named"][k] else cfg["prio"][k] for k in range(cfg["n"])]
-    seq = [rc["seq"][k] if rc["named"][k] else cfg["seq"][k] for k in range(cfg["n"])]
+    keys = rc.get("keys") or ["both"] * cfg["n"]        # which attributes the entry of a named node spells out: what it leaves out stays
+    prio = [rc["prio"][k] if rc["named"][k] and keys[k] in ("both", "prio") else cfg["prio"][k] for k in range(cfg["n"])]
+    seq = [rc["seq"][k] if rc["named"][k] and keys[k] in ("both", "seq") else cfg["seq"][k] for k in range(cfg["n"])]
     return prio, seq
 
 
@@ -235,6 +236,9 @@ def random_config(rng, nmin=4, nmax=7):
                          "named": [rng.random() < 0.6 for _ in range(n)], "via": rng.choice(["dict", "json", "yaml"]),
                          "mc": rng.choice([None, None, 1, 2, 3, 4])}
         if rng.random() < 0.5:
+            # entries that spell out only one of the two attributes: the other one stays as it was
+            cfg["reconf"]["keys"] = [rng.choice(["both", "prio", "seq"]) for _ in range(n)]
+        elif rng.random() < 0.5:
             # the nodes that get the same new values are addressed through one tag; the same dict may be applied twice
             cfg["reconf"].update({"bytag": True, "twice": rng.random() < 0.5})
             if rng.random() < 0.7:
@@ -286,6 +290,15 @@ def reconf_config(rng):
         prio2[j] = rng.choice([v for v in (-5, 11, 12, 13) if v != cfg["prio"][j]])
     cfg["reconf"] = {"prio": prio2, "seq": list(cfg["seq"]), "named": [j in named_nodes for j in range(n)],
                      "via": rng.choice(["dict", "json", "yaml"]), "mc": None}
+    if rng.random() < 0.6:
+        # the entries spell out the priority only: a sequential node stays sequential
+        cfg["reconf"]["keys"] = ["prio" if j in changed else rng.choice(["prio", "both"]) for j in range(n)]
+        for j in rng.sample(named_nodes, rng.randint(1, len(named_nodes))):
+            cfg["seq"][j] = True
+        cfg["reconf"]["seq"] = list(cfg["seq"])
+        cfg["mc"] = rng.choice([2, 3])          # an overlap with a node that wrongly lost its flag must be possible
+        cfg["res"] = [r if r != "main" else "thread" for r in cfg["res"]]
+        cfg["cid"] = cfg_key(cfg)
     cfg["cid"] = cfg_key(cfg)
     return cfg
 
